@@ -43,7 +43,7 @@ ASSUMPTIONS = [
 ]
 RULE = ("k-space tensors (coil,h,w,2), (coil,s,h,w,2), (b,coil,h,w,2), (b,coil,s,h,w,2) filled with distinct integers and planted "
         "-0.0/±inf/±3.4e38 at sampled and unsampled positions; bool/uint8/int64/float32 masks of every broadcastable shape "
-        "(all-zero, all-one, random, rank-deficient, expanding) plus a malformed stream (non-broadcastable masks, no complex axis). "
+        "(all-zero, all-one, random, rank-deficient, expanding); ApplyMaskModule on sample dicts with stale target content (same / other shape / non-tensor), histories of 1-3 applications with new masks, custom key names, unrelated keys; plus a malformed stream (non-broadcastable masks, no complex axis). "
         "non-trivial = at least one sampled and one unsampled position and ≥ 4 k-space entries, or a malformed input that must "
         "be rejected; distinct = distinct protocol line / oracle case key")
 PENDING_FINDINGS: list[str] = []
@@ -239,6 +239,108 @@ def gen_engine_case(rng, specials_unsampled_only=False):
     return kshape, m, dn, pat, k, x, S, sup
 
 
+_MISSING = object()
+STALE_KINDS = ["none", "same-shape-junk", "same-shape-other-mask", "other-shape", "non-tensor"]
+
+
+def gen_module_history(rng, integer_valued=True, max_elems=100):
+    """ApplyMaskModule applied 1-3 times to one sample dict: input k-space, stale content under the target key,
+    a new mask per application, key names, unrelated keys."""
+    kkind, kshape = gen_kshape(rng, max_elems)
+    k = gen_kspace(rng, kshape) if integer_valued else gen_any_kspace(rng, kshape)
+    n = rng.choice([1, 2, 2, 3])
+    dn = rng.choice(list(MASK_DTYPES))
+    masks = []
+    for _ in range(n):
+        for _try in range(8):
+            skind, mshape = gen_mask_shape(rng, kshape)
+            _, pat, m = gen_mask(rng, mshape, dtype_name=dn, pattern=rng.choice(["random", "random", "sparse", "ones", "zeros", "values"]))
+            if not masks or m.shape != masks[-1].shape or not torch.equal(m, masks[-1]):
+                break
+        masks.append(m)
+    stale_kind = rng.choice(STALE_KINDS + ["same-shape-junk", "same-shape-other-mask"])
+    if stale_kind == "none":
+        stale = _MISSING
+    elif stale_kind == "same-shape-junk":
+        stale = gen_kspace(rng, kshape) if integer_valued else gen_any_kspace(rng, kshape)
+    elif stale_kind == "same-shape-other-mask":     # a correctly masked k-space — for another mask
+        other = (torch.arange(int(np.prod(kshape[:-1]))) % 2).reshape(kshape[:-1] + [1])
+        stale = torch.from_numpy(np.where(other.numpy() != 0, k.numpy(), np.float32(0.0))).clone()
+    elif stale_kind == "other-shape":
+        stale = gen_kspace(rng, [kshape[0] + 1] + kshape[1:], n_special=0)
+    else:
+        stale = rng.choice([None, "stale", 0])
+    keys = ("kspace", "masked_kspace", "sampling_mask") if rng.random() < 0.5 else \
+        rng.choice([("ksp_in", "ksp_out", "msk"), ("kspace", "undersampled", "mask_2"), ("full", "masked_kspace", "sampling_mask")])
+    extras = {}
+    if rng.random() < 0.6:
+        extras = {"filename": "vol_0", "slice_no": 3, "target": torch.arange(6.0).reshape(2, 3),
+                  "sensitivity_map": torch.ones(kshape), "acs_mask": torch.ones([1] * len(kshape))}
+        for kk in keys:
+            extras.pop(kk, None)
+    return k, masks, dn, stale_kind, stale, keys, extras
+
+
+def run_module_history(k, masks, stale, keys, extras):
+    """-> (list of outputs, problem or None) on the REAL ApplyMaskModule"""
+    from direct.data.mri_transforms import ApplyMaskModule
+
+    ik, tk, mk = keys
+    mod = ApplyMaskModule(sampling_mask_key=mk, input_kspace_key=ik, target_kspace_key=tk)
+    kin = k.clone()
+    kbits = _bits(kin)
+    sample = {ik: kin, **extras}
+    if stale is not _MISSING:
+        sample[tk] = stale
+    snap = {kk: (v, v.clone() if isinstance(v, torch.Tensor) else v) for kk, v in extras.items()}
+    outs = []
+    for m in masks:
+        sample[mk] = m
+        sample = mod(sample)
+        out = sample[tk]
+        outs.append(out.clone() if isinstance(out, torch.Tensor) else out)
+        if ik != tk and (sample.get(ik) is not kin or (_bits(kin) != kbits).any()):
+            return outs, "InputMutated"
+        for kk, (obj, copy) in snap.items():
+            cur = sample.get(kk, _MISSING)
+            if cur is not obj or (isinstance(obj, torch.Tensor) and not torch.equal(obj, copy)):
+                return outs, "OtherKeysChanged"
+    return outs, None
+
+
+def expected_bits(k, m):
+    shape = np.broadcast_shapes(tuple(m.shape), tuple(k.shape))
+    return np.where(np.broadcast_to(m.numpy() != 0, shape), np.broadcast_to(_bits(k), shape), 0)
+
+
+def check_module_history(k, masks, stale_kind, stale, keys, extras):
+    """the property on the real module: every application yields where(mask == 0, +0, input) for the CURRENT mask"""
+    try:
+        outs, problem = run_module_history(k, masks, stale, keys, extras)
+    except Exception as e:  # noqa: BLE001
+        return "module-raises", f"ApplyMaskModule raises {err_name(e)}: {e}"
+    for step, (m, out) in enumerate(zip(masks, outs)):
+        exp = expected_bits(k, m)
+        if not isinstance(out, torch.Tensor) or _bits(out).shape != exp.shape or (_bits(out) != exp).any():
+            if step == 0:
+                return (f"module-stale-target-{stale_kind}",
+                        f"ApplyMaskModule output != where(mask==0, 0, input) when the target key pre-exists ({stale_kind})")
+            return ("module-reapplied-with-new-mask",
+                    f"application #{step + 1} of ApplyMaskModule on the same sample does not honour the current mask")
+    if problem == "InputMutated":
+        return "module-mutates-input", "ApplyMaskModule modified or replaced its input k-space"
+    if problem == "OtherKeysChanged":
+        return "module-touches-other-keys", "ApplyMaskModule changed unrelated keys of the sample"
+    return None
+
+
+def _rep_history(k, masks, stale_kind, stale, keys, extras):
+    return {"op": "module_history", "kspace": _rep_tensor(k), "masks": [_rep_tensor(m) for m in masks],
+            "stale_kind": stale_kind,
+            "stale": _rep_tensor(stale) if isinstance(stale, torch.Tensor) else ("<missing>" if stale is _MISSING else repr(stale)),
+            "keys": list(keys), "extras": bool(extras)}
+
+
 def correspondence(ctx: Ctx):
     import direct.data.transforms as T
     from direct.data.mri_transforms import ApplyMaskModule
@@ -265,6 +367,43 @@ def correspondence(ctx: Ctx):
             return ok_vals(out)
         yield {"line": pline("mask", mk, ms, md, kshape, enc_vals(k)), "impl": _impl(run), "nontrivial": nontrivial,
                "bucket": f"mask/{dn}/{pat}/{skind}" + ("/module" if via_module else "")}
+    # ---- ApplyMaskModule on sample dicts: pre-existing (stale) target, histories of 1-3 applications with new masks,
+    #      non-default key names, unrelated keys, input not mutated
+    for i in range(ctx.budget(140, 2000)):
+        k, masks, dn, stale_kind, stale, keys, extras = gen_module_history(rng)
+        groups = [[1 if dn == "float32" else 0], list(k.shape), enc_vals(k)]
+        if isinstance(stale, torch.Tensor):
+            groups += [[1], list(stale.shape), enc_vals(stale)]
+        else:
+            groups += [[0], [], []]
+        for m in masks:
+            _, ms, md = mask_groups(m)
+            groups += [ms, md]
+
+        def run(k=k, masks=masks, stale=stale, keys=keys, extras=extras):
+            outs, problem = run_module_history(k, masks, stale, keys, extras)
+            if problem:
+                return "err " + problem
+            try:
+                return "ok " + " | ".join(ints(o.shape) + " | " + ints(enc_vals(o)) for o in outs)
+            except Unencodable as e:
+                return "err NaN" if str(e) == "NaN" else "err Unencodable"
+        sup = support(masks[-1], list(k.shape))
+        yield {"line": pline("modhist", *groups), "impl": _impl(run),
+               "nontrivial": bool(sup.any() and (~sup).any()) and (stale_kind != "none" or len(masks) > 1),
+               "bucket": f"module/stale={stale_kind}/n={len(masks)}/" + ("default-keys" if keys[1] == "masked_kspace" and keys[0] == "kspace" else "custom-keys")
+                         + ("/extras" if extras else "")}
+    for which in (0, 1):
+        for _ in range(ctx.budget(4, 20)):
+            kkind, kshape = gen_kshape(rng, 40)
+            k = gen_kspace(rng, kshape)
+
+            def run(k=k, which=which):
+                from direct.data.mri_transforms import ApplyMaskModule
+                smp = {"sampling_mask": torch.ones(1)} if which == 0 else {"kspace": k}
+                return ok_vals(ApplyMaskModule()(smp)["masked_kspace"])
+            yield {"line": pline("modmissing", [which], kshape, enc_vals(k)), "impl": _impl(run), "nontrivial": True,
+                   "bucket": "malformed/module-missing-" + ("input" if which == 0 else "mask")}
     # ---- malformed: masks that do not broadcast, k-space without complex axis
     for i in range(ctx.budget(40, 400)):
         kkind, kshape = gen_kshape(rng, 60)
@@ -486,6 +625,18 @@ def oracle(ctx: Ctx, deep: bool = False):
             r = (f"{via}-raises", f"raises {err_name(e)}: {e}")
         if r:
             yield Violation(r[0], r[1], {"op": "apply_mask", "via": via, "kspace": _rep_tensor(k), "mask": _rep_tensor(m)})
+    # (1b) ApplyMaskModule as a function of (input, mask) only: stale targets, repeated application, keys, no mutation
+    for i in range(ctx.budget(150, 2500) * (3 if deep else 1)):
+        k, masks, dn, stale_kind, stale, keys, extras = gen_module_history(rng, integer_valued=rng.random() < 0.3)
+        same_key = rng.random() < 0.1
+        if same_key:                      # in-place style configuration: target key == input key, single application
+            keys, masks, stale, stale_kind = (keys[0], keys[0], keys[2]), masks[:1], _MISSING, "none"
+        sup = support(masks[-1], list(k.shape))
+        ctx.count(("o-module", i, stale_kind, len(masks), keys), bool(sup.any() and (~sup).any()),
+                  bucket=f"oracle/module/stale={stale_kind}/n={len(masks)}" + ("/same-key" if same_key else ""))
+        r = check_module_history(k, masks, stale_kind, stale, keys, extras)
+        if r:
+            yield Violation(r[0], r[1], _rep_history(k, masks, stale_kind, stale, keys, extras))
     # (2) mask given as mask function: the mask must be mask_func(kspace.shape[1:], seed), k-space masked with it
     from direct.common.subsample import FastMRIEquispacedMaskFunc, FastMRIRandomMaskFunc
 
@@ -616,6 +767,12 @@ def replay(rep: dict) -> bool:
     try:
         if op == "apply_mask":
             return check_apply_mask(_from_rep(rep["kspace"]), _from_rep(rep["mask"]), rep.get("via", "apply_mask")) is not None
+        if op == "module_history":
+            st = rep["stale"]
+            stale = _from_rep(st) if isinstance(st, dict) else (_MISSING if st == "<missing>" else None)
+            extras = {"filename": "vol_0", "target": torch.arange(6.0).reshape(2, 3)} if rep.get("extras") else {}
+            return check_module_history(_from_rep(rep["kspace"]), [_from_rep(m) for m in rep["masks"]], rep["stale_kind"],
+                                        stale, tuple(rep["keys"]), extras) is not None
         if op == "apply_mask_func":
             import direct.common.subsample as sub
             cls = getattr(sub, rep["cls"])
